@@ -734,6 +734,39 @@ def search_one(ctx, spec, kw, seed):
         ctx.property_failure(r[0], r[1], dict(r[2], failing_input={"op": "fix", "spec": spec, "kw": kw, "seed": seed}))
 
 
+def mixed_dtype_search(ctx, spec, seed):
+    """fix() on a model whose FIRST parameter has another dtype than the rest (a 16-bit embedding or norm in
+    front of float32 layers, ...): parameters and buffers of every module fix does not replace keep their
+    dtype and bits.  (No forward pass: the layers do not accept each other's dtypes.)"""
+    MV, _, _ = opacus()
+    m = zoo.build(spec)
+    owners = [mod for mod in m.modules() if zoo.own_params(mod)]
+    if len(owners) < 2:
+        return
+    dt = [torch.float32, torch.bfloat16, torch.float16][seed % 3]
+    owners[0].to(dt)
+    tree = describe_tree(m)
+    ctx.count("search:fix-mixed-dtype")
+    try:
+        f = MV.fix(m)
+    except Exception as e:  # noqa: BLE001
+        ctx.count("search:fix-mixed-dtype:refused:" + type(e).__name__)
+        return
+    fm = dict(f.named_modules())
+    for path, mod in m.named_modules():
+        g = fm.get(path)
+        if g is None or type(g) is not type(mod):
+            continue
+        for kind, own in (("parameter", zoo.own_params), ("buffer", zoo.own_buffers)):
+            for (k, a), (_, b) in zip(own(mod), own(g)):
+                if a is None or b is None or not a.is_floating_point():
+                    continue
+                if a.dtype != b.dtype or not torch.equal(a.detach(), b.detach()):
+                    ctx.property_failure(f"C15:fix:{kind}-changed:mixed-dtype", f"fix({tree}) with first parameter in {dt}: {kind} '{path}.{k}' was {a.dtype} and is {b.dtype} in the result",
+                                         {"tree": tree, "path": path, "failing_input": {"op": "fix-mixed", "spec": spec, "seed": seed}})
+                    return
+
+
 def exhaustive_specs():
     """every tree of depth ≤ 2 over a catalogue of leaves (thorough tier): a leaf as root, Sequential of
     one or two leaves, Box (trainable or frozen) of one leaf"""
@@ -802,6 +835,8 @@ def run(ctx):
             search_one(ctx, sp, {"rbi": None, "ng": None, "extra": 0}, sd)
         for _ in range(ctx.n(150, 1500)):
             search_one(ctx, zoo.gen_spec(ctx.rng, flips=False), gen_kw(ctx.rng), ctx.rng.randrange(1 << 30))
+        for _ in range(ctx.n(60, 600)):
+            mixed_dtype_search(ctx, zoo.gen_spec(ctx.rng, flips=False), ctx.rng.randrange(1 << 30))
 
 
 class _Recorder:
@@ -830,6 +865,11 @@ def replay(ctx, rp):
         res = []
         if op == "witness":
             res = run_witness(fi["name"])
+        elif op == "fix-mixed":
+            rec = _Recorder(ctx)
+            rec.count = lambda *a, **k: None
+            rec.property_failure = lambda key, what, rp2=None: res.append((key, what, rp2))
+            mixed_dtype_search(rec, fi["spec"], fi["seed"])
         elif op in ("validate", "make_private", "fix"):
             m = zoo.build(fi["spec"])
             if op == "validate":
